@@ -228,7 +228,7 @@ func c19Config(run *evid.Run, cfg Cfg, ca, rogue *rig.CA, ci int, noCA bool) {
 	dir := cfg.Dir(fmt.Sprintf("c19-%d", ci))
 	port := rig.FreePort("127.0.0.1")
 	accounts := []string{}
-	for i := 0; i < 12; i++ {
+	for i := 0; i < 14; i++ {
 		accounts = append(accounts, fmt.Sprintf("acct%d", i))
 	}
 	// The host's trust store (what SystemCertPool returns inside the daemon) holds the OTHER authority: a daemon
@@ -238,7 +238,7 @@ func c19Config(run *evid.Run, cfg Cfg, ca, rogue *rig.CA, ci int, noCA bool) {
 	_ = os.WriteFile(trustFile, rogue.CertPEM, 0o644)
 	_ = os.MkdirAll(trustDir, 0o755)
 	d, err := rig.PrepareDaemon(rig.DaemonOpts{Dir: dir, ID: 1, IP: "127.0.0.1", Port: port, CA: ca, NoCAInCfg: noCA,
-		Env: []string{"SSL_CERT_FILE=" + trustFile, "SSL_CERT_DIR=" + trustDir},
+		Env:         []string{"SSL_CERT_FILE=" + trustFile, "SSL_CERT_DIR=" + trustDir},
 		Peers:       map[uint64]string{1: fmt.Sprintf("127.0.0.1:%d", port)},
 		Permissions: map[string]map[string][]string{"client1": {"Wallet1": {"All"}, "D": {"All"}}, "client2": {"Wallet2": {"All"}}},
 		NDWallets:   map[string][]string{"Wallet1": accounts, "Wallet2": {"other"}}, DistWallets: []string{"D"}})
@@ -266,6 +266,9 @@ func c19Config(run *evid.Run, cfg Cfg, ca, rogue *rig.CA, ci int, noCA bool) {
 	roguePeer := issue(rogue, rig.CertOpts{CN: "127.0.0.1", IPs: []string{"127.0.0.1"}})
 	chained := unpermitted
 	chained.Certificate = append(append([][]byte{}, unpermitted.Certificate...), selfSigned.Certificate[0])
+	selfSignedPeer := issue(nil, rig.CertOpts{CN: "127.0.0.1", SelfSigned: true})
+	chainedPeer := unpermitted
+	chainedPeer.Certificate = append(append([][]byte{}, unpermitted.Certificate...), selfSignedPeer.Certificate[0])
 	expired := issue(ca, rig.CertOpts{CN: "client1", NotBefore: time.Now().Add(-48 * time.Hour), NotAfter: time.Now().Add(-24 * time.Hour)})
 	serverOnly := issue(ca, rig.CertOpts{CN: "client1", ServerOnly: true})
 	callers := []c19Caller{
@@ -278,6 +281,7 @@ func c19Config(run *evid.Run, cfg Cfg, ca, rogue *rig.CA, ci int, noCA bool) {
 		{Kind: "valid-unpermitted", TLS: rig.ClientTLS(ca, unpermitted), Accepted: true, Identity: "client9"},
 		{Kind: "valid-san-names-permitted", TLS: rig.ClientTLS(ca, sanOnly), Accepted: true, Identity: "client9"},
 		{Kind: "valid-unpermitted-plus-unverified-permitted-in-chain", TLS: rig.ClientTLS(ca, chained), Accepted: true, Identity: "client9"},
+		{Kind: "valid-unpermitted-plus-unverified-peer-name-in-chain", TLS: rig.ClientTLS(ca, chainedPeer), Accepted: true, Identity: "client9"},
 		{Kind: "expired-permitted", TLS: rig.ClientTLS(ca, expired)},
 		{Kind: "server-only-usage-permitted", TLS: rig.ClientTLS(ca, serverOnly)},
 	}
